@@ -53,3 +53,10 @@ VARIANTS += [
       rule='C16-DECLARED', key='poss_upgrade_to_int'),
     M('C16', 'refactor-declared-set-local', E(RD, "            if not k in (specified_types or []):\n                poss_upgrade_to_int(df, k)", "            declared = specified_types or {}\n            if k not in declared:\n                poss_upgrade_to_int(df, k)"), kind='refactor'),
 ]
+
+VARIANTS += [
+    M('C16', 'boolean-spellings-kept-for-first-column-only', E(PI, "                trues.add(parts[0])\n                falses.add(parts[1])", "                trues.add(parts[0])\n                falses.add(parts[1])\n                kw.setdefault('true_values', [parts[0]])"),
+      rule='C16-ACCUM', key='to_pandas_read_csv_args'),
+    M('C16', 'refactor-accumulate-through-setdefault-append', E(PI, "                trues.add(parts[0])\n                falses.add(parts[1])", "                trues.add(parts[0])\n                falses.add(parts[1])\n                kw.setdefault('_seen_boolean_formats', []).append(parts)"),
+      kind='refactor'),
+]
